@@ -176,11 +176,11 @@ func zzAlpha(tag string, n int, set string) string {
 // Host patterns (exact, suffix:, wildcard) against the documented semantics,
 // through Compile and the rule set (case folding and trailing dots included).
 //
-//verif:harness kind=api unwind=64 bound=name<=3(quick)/4(thorough)over{a,B,.},pattern<=2(quick)/3(thorough)over{a,B,*,.}
+//verif:harness kind=api unwind=64 bound=name<=3(quick)/4(thorough)over{a,B,.},pattern<=3(quick)/4(thorough)over{a,B,*,.}
 func ZZ_C09_HostPatterns() {
-	nl, pl := 3, 2
+	nl, pl := 3, 3
 	if verifThorough() {
-		nl, pl = 4, 3
+		nl, pl = 4, 4
 	}
 	name := zzAlpha("name", 1+verifChoice("nameLen", nl), "aB.")
 	pat := zzAlpha("pat", 1+verifChoice("patLen", pl), "aB*.")
